@@ -448,13 +448,13 @@ def run(res, tier, seed, search):
                 "indexes with probability .5 on tie-free gaussian data, n in 40..200, k in 4..15, where the replayed draws decide edges "
                 "(m = round(mult*k) incl. 1 and 2, dense/CSR, tree_init, low_memory), non-trivial = some row longer than the bound or some edge "
                 "removed by diversification; (3) API predicate on the same and on smallint / duplicate / 2-D-correlation data with "
-                "diversify_prob in {1, .5, 0}, non-trivial = n > k; distinct = hash of the configuration; quick tier: dense euclidean plus two of "
-                "the four other (metric, dense/CSR) plans, rotating with the seed (each plan costs 10-20 s of numba compilation)")
+                "diversify_prob in {1, .5, 0}, non-trivial = n > k; distinct = hash of the configuration; quick tier: dense euclidean, one CSR plan and one "
+                "other dense plan, rotating with the seed (each plan costs 10-20 s of numba compilation)")
     check_prune(res, prng, 60 if tier == "quick" else 600)
     check_prune_wrapper(res, prng)
     if tier == "quick" and not search:
-        others = PLANS[1:]
-        plans = [PLANS[0], others[(2 * seed) % 4], others[(2 * seed + 1) % 4]]
+        # dense euclidean, one of the two dense others and ALWAYS one CSR plan (the sparse call sites of _init_search_graph are their own code)
+        plans = [PLANS[0], PLANS[3 + seed % 2], PLANS[1 + (seed // 2) % 2]]
         per = [14, 8, 8]
     else:
         plans = PLANS
